@@ -268,6 +268,15 @@ theorem lineNumbers_without_separator (p : Prefs) (t : CssVerif.Proto.Cps) (h : 
     lineNumbers p t = .ok t :=
   lineNumbers_empty_separator p t h
 
+/-- **(was finding C06-variables-trailing-escaped-blank, repaired in 1bbf955)** the final strip of a variables block
+keeps the blank that a backslash escapes: `a: e\ ` + line break is stripped to `a: e\ `, not to `a: e\`; and in general the
+strip only ever removes white space -/
+theorem variables_block_keeps_escaped_blank :
+    stripKeepEsc [97, 58, 32, 101, 92, 32, 10] = [97, 58, 32, 101, 92, 32] ∧
+    stripKeepEsc [32, 97, 58, 32, 101, 92, 92, 32, 10] = [97, 58, 32, 101, 92, 92] ∧
+    ∀ s, stripWs (stripKeepEsc s) = stripWs s :=
+  ⟨by decide, by decide, stripWs_stripKeepEsc⟩
+
 /-- **finding C06-indent-inside-token**: `_indentblock` splits the text wherever the line separator occurs, also inside
 a comment: `a{x:y;/*c⏎d*/}` is written with the comment `/*c⏎    d*/` -/
 theorem finding_indent_inside_comment :
